@@ -2,6 +2,6 @@
    sumbool, sumor map to OCaml's; nat, positive, N, Z stay inductive. *)
 Require Extraction.
 Require Import ExtrOcamlBasic.
-From Atlas Require Import Base.Bytes Lex.LexModel.
+From Atlas Require Import Base.Bytes Lex.LexModel Lex.LexDirective.
 Extraction Language OCaml.
-Extraction "model.ml" scan Scan fuel_of Line decode_rune trim_left_space trim_right_space trim_space directive_delimiter.
+Extraction "model.ml" scan Scan fuel_of Line decode_rune trim_left_space trim_right_space trim_space directive_delimiter scan_directives.
